@@ -29,7 +29,14 @@ func checkC17(c *Ctx, r *Report) {
 	if f := r1.need("(*" + oaP + ".Manager).shouldRecordObservation"); f != nil {
 		var trueRets []ssa.Instruction
 		for _, ret := range returnsOf(f) {
-			if b, ok := constBool(retVal(ret, 0)); ok && !b {
+			// (an answer handed back by a local `reject()` helper is what that helper returns)
+			allFalse := true
+			for _, l := range phiLeaves(retVal(ret, 0)) {
+				if b, ok := constBool(strip(l)); !ok || b {
+					allFalse = false
+				}
+			}
+			if allFalse {
 				continue
 			}
 			trueRets = append(trueRets, ret)
@@ -60,6 +67,30 @@ func checkC17(c *Ctx, r *Report) {
 				})
 			}
 		}
+		// membership of the connection's local thin waist among the listen addresses, written out as a loop that
+		// sets a flag past localTW.TW.Equal(<listen address thin waist>)
+		listenMember := func(*ssa.BasicBlock, int) bool { return false }
+		{
+			isListenList := func(v ssa.Value) bool {
+				return derivesFrom(v, func(x ssa.Value) bool {
+					call, ok := x.(*ssa.Call)
+					return ok && isDynCallOfField(call, mgrT+".listenAddrs")
+				})
+			}
+			cj := conjunct{name: "localTW.TW.Equal(listen address)", cond: func(func(ssa.Value) ssa.Value) condPred {
+				return valCond(func(v ssa.Value) bool {
+					ci := isResultOfCall(v, 0, "(github.com/multiformats/go-multiaddr.Multiaddr).Equal")
+					if ci == nil {
+						return false
+					}
+					a := callArgs(ci)
+					return len(a) == 2 && (twField(localAddr)(a[0]) || twField(localAddr)(a[1]))
+				})
+			}}
+			if mr := matchEdges(c, f, isListenList, []conjunct{cj}); mr != nil && len(mr.missing) == 0 {
+				listenMember = edgeSet(mr.edges)
+			}
+		}
 		gs := []struct {
 			name string
 			e    EdgePred
@@ -71,13 +102,13 @@ func checkC17(c *Ctx, r *Report) {
 			{"!isRelayedAddress(observed)", edgeBool(callOn(oaP+".isRelayedAddress", 0, obs), false)},
 			{"thinWaistForm(conn.LocalMultiaddr()) err==nil", edgeNil(twErr(localAddr), true)},
 			{"thinWaistForm(observed) err==nil", edgeNil(twErr(obs), true)},
-			{"ma.Contains(listenAddrs, localTW.TW)", edgeBool(func(v ssa.Value) bool {
+			{"ma.Contains(listenAddrs, localTW.TW)", anyEdge(edgeBool(func(v ssa.Value) bool {
 				ci := isResultOfCall(v, 0, "github.com/multiformats/go-multiaddr.Contains")
 				return ci != nil && twField(localAddr)(ci.Common().Args[1]) && derivesFrom(ci.Common().Args[0], func(x ssa.Value) bool {
 					call, ok := x.(*ssa.Call)
 					return ok && isDynCallOfField(call, mgrT+".listenAddrs")
 				})
-			}, true)},
+			}, true), listenMember)},
 			{"hasConsistentTransport(localTW.TW, observedTW.TW)", edgeBool(func(v ssa.Value) bool {
 				ci := isResultOfCall(v, 0, oaP+".hasConsistentTransport")
 				return ci != nil && twField(localAddr)(ci.Common().Args[0]) && twField(obs)(ci.Common().Args[1])
